@@ -7,6 +7,7 @@ for every operation of random histories.  PROPERTY THEOREMS ONLY.
 import GoSandbox.Model.Rpc
 import GoSandbox.Model.Reaper
 import GoSandbox.Gen.C12
+import GoSandbox.Gen.C10
 namespace GoSandbox.Props.C10
 open GoSandbox.Model.Rpc
 
@@ -192,6 +193,56 @@ example : AfterRuns 1 { reported := [true], runs := 1 } :=
   AfterRuns.succ AfterRuns.zero (by decide +kernel)
 
 end Reaper
+
+/-! ### the host endpoint of the model is the host endpoint of the code -/
+
+/-- a path of `Execve` with `execveSyncKill` written out (send kill, receive one reply) -/
+def expandKill (p : List String) : List String :=
+  p.flatMap (fun x => if x == "execveSyncKill" then (Gen.C10.execveSyncKillPaths.headD []) else [x])
+
+/-- what the host automaton of Model/Rpc.lean does during an Execve, location by location:
+idle →(send execve) sentExecve →(receive) { error reply: return | sync: callback → { fails: killAfterCallback
+→(send kill) waitAfterKill →(receive) return | ok: →(send ok) waitForDone } } -/
+def modelHostPaths : List (List String) :=
+  [["send execve", "recv", "return error"],
+   ["send execve", "recv", "callback", "send kill", "recv", "return error"],
+   ["send execve", "recv", "callback", "send ok", "return waitForDone"],
+   ["send execve", "recv", "send ok", "return waitForDone"]]
+
+/-- returns forced by a failing send or receive (the transport is lost: the model's "every wait has the done
+alternative"), and the defensive path for a sync message without credentials (two kills, two replies) -/
+def transportOrDefensivePaths : List (List String) :=
+  [["send execve", "return error"],
+   ["send execve", "recv", "callback", "send ok", "return error"],
+   ["send execve", "recv", "send ok", "return error"],
+   ["send execve", "recv", "send kill", "recv", "send kill", "recv", "return error"]]
+
+/-- **the host side of the protocol model is what `Execve` / `waitForDone` do** (regenerated from
+container/host_exec_linux.go on every run): every path through `Execve`, with `execveSyncKill` written out, is
+a path of the model's host automaton, or a return forced by a failing send/receive, or the defensive no-pid
+path; every path of the model occurs; `execveSyncKill` is "send kill, receive one reply"; and `waitForDone`
+has exactly the model's three continuations — transport lost: nothing is sent; cancelled: one kill, then
+exactly one reply is consumed; result arrived: one kill, no further receive (so no reply of this call is left
+for the next one, and none of the next one is taken by this call). -/
+theorem C10_gen_host_paths :
+    (Gen.C10.hostExecvePaths.map expandKill).all (fun p => modelHostPaths.contains p || transportOrDefensivePaths.contains p) = true ∧
+    modelHostPaths.all (fun p => (Gen.C10.hostExecvePaths.map expandKill).contains p) = true ∧
+    Gen.C10.execveSyncKillPaths = [["send kill", "recv"]] ∧
+    Gen.C10.waitForDonePaths =
+      [["case <-c.done", "return result"],
+       ["case <-ctx.Done()", "send kill", "recv", "return result"],
+       ["case <-c.recvCh", "send kill", "return result"]] := by
+  refine ⟨?_, ?_, ?_, ?_⟩ <;> decide +kernel
+
+/-- **one command, one answer, on every path of every simple call** (regenerated from container/host_cmd_linux.go):
+Ping, conf, Open, Symlink, Delete and Reset each send exactly one command and then receive exactly one reply —
+or return at once when the send itself failed; no path sends twice, receives twice, or receives without having
+sent (the model's `simple` operation: idle →(send m) sentSimple →(receive) returned). -/
+theorem C10_gen_simple_calls :
+    (Gen.C10.simpleCallPaths.map (·.1)) = ["Ping", "conf", "Open", "Symlink", "Delete", "Reset"] ∧
+    Gen.C10.simpleCallPaths.all (fun m =>
+      m.2.all (fun p => p == ["send"] || p == ["send", "recv"]) && m.2.contains ["send", "recv"]) = true := by
+  constructor <;> decide +kernel
 
 /-! non-vacuity -/
 example : allOps.length = 22 := by decide
